@@ -219,7 +219,17 @@ func TestStructured(t *testing.T) {
 				if len(tail) > 0 {
 					cutTail = tail[:rapid.IntRange(0, len(tail)-1).Draw(t, "tailcut")]
 				}
-				for ti, tl := range [][]byte{tail, cutTail, over, {0, 1}, {0, 1, 0}, {0, 1, 0, 0}, {0xff, 0xff, 0xff, 0xff}} {
+				variants := [][]byte{tail, cutTail, over, {0, 1}, {0, 1, 0}, {0, 1, 0, 0}, {0xff, 0xff, 0xff, 0xff}}
+				// a triplet header whose 16-bit length sits at the arithmetic edges (4+length wraps in 16 bits from
+				// 0xfffc on), with nothing / a few octets / the full value behind it, alone and after a valid triplet
+				for _, l16 := range []uint16{0x7fff, 0x8000, 0xfff0, 0xfffa, 0xfffb, 0xfffc, 0xfffd, 0xfffe, 0xffff} {
+					h := []byte{0x02, 0x10, byte(l16 >> 8), byte(l16)}
+					variants = append(variants, h, append(append([]byte{}, h...), 1, 2, 3), append(append([]byte{0, 5, 0, 1, 9}, h...), 7))
+					if l16 >= 0xfffb && rapid.IntRange(0, 3).Draw(t, "fullvalue") == 0 {
+						variants = append(variants, append(append([]byte{}, h...), make([]byte, int(l16))...))
+					}
+				}
+				for ti, tl := range variants {
 					m := append(append([]byte{}, img[:info.MandatoryEnd]...), tl...)
 					for _, tg := range targets {
 						probe(t, tg, m, false, fmt.Sprintf("tail variant %d", ti), true)
@@ -321,6 +331,31 @@ func TestTextParsers(t *testing.T) {
 	}
 	rec.Class("text_parser_inputs")
 	rec.Exhaustive("every truncation of every receipt key token (with/without colon, both spellings) and of a full receipt, through the three receipt parsers and the concatenation-header parser")
+	// every dispatcher on every command id around the defined ones (0..0x40 with and without the response
+	// bit, every single-bit flip of those) in front of an all-zero body and of a short body
+	for tg, hl := range map[string]int{"Dispatch:smpp34": 16, "Dispatch:cmpp20": 12, "Dispatch:cmpp30": 12, "Dispatch:sgip12": 20, "Dispatch:smgp30": 12} {
+		ids := map[uint32]bool{}
+		for i := uint32(0); i <= 0x40; i++ {
+			for _, base := range []uint32{i, i | 0x80000000} {
+				ids[base] = true
+				for bit := uint(0); bit < 32; bit++ {
+					ids[base^(1<<bit)] = true
+				}
+			}
+		}
+		for _, x := range []uint32{0x102, 0x103, 0x1000, 0x80001000, 0xffffffff, 0x7fffffff} {
+			ids[x] = true
+		}
+		for id := range ids {
+			for _, n := range []int{hl, hl + 1, 700} {
+				img := make([]byte, n)
+				binary.BigEndian.PutUint32(img, uint32(n))
+				binary.BigEndian.PutUint32(img[4:], id)
+				probe(t, tg, img, false, fmt.Sprintf("command id %#x, %d octets", id, n), true)
+			}
+		}
+	}
+	rec.Exhaustive("every dispatcher on command ids 0..0x40 (with/without response bit) and all their single-bit flips")
 	// every target on the empty input and on 1..3 octet inputs of the hostile constants
 	for _, tg := range Targets {
 		probe(t, tg.Name, nil, false, "empty input", false)
